@@ -499,42 +499,46 @@ def fAlloc : Nat := 4
 def fModulus : Nat := 5
 def fIll : Nat := 9
 
+/-- Python list indexing: negative indices count from the end -/
+def pyIdx (i : Int) (n : Nat) : Option Nat :=
+  if 0 ≤ i then (if i.toNat < n then some i.toNat else none)
+  else if 0 ≤ i + (n : Int) then some (i + (n : Int)).toNat else none
+
 def stdExec (mn : String) (vals : List Val) (m : StdMem) : Res StdMem :=
   match mn, vals with
   | "set", [.dst, .imm v] => .ok (some v) m false
   | "lea", [.dst, .addr a] => .ok (some a) m false
   | "array", [.use (some n), .addr a] =>
-    if n < 0 then .fault fIndex else .ok none { m with arrays := setArr m.arrays a (List.replicate n.toNat none) } false
-  | "array", [.use none, .addr _] => .fault fUndef
+    .ok none { m with arrays := setArr m.arrays a (List.replicate n.toNat none) } false
   | "store", [.use (some v), .entry a (some i)] =>
     match getArr m.arrays a with
     | none => .fault fNoArray
     | some arr =>
-      if 0 ≤ i ∧ i.toNat < arr.length then .ok none { m with arrays := setArr m.arrays a (arr.set i.toNat (some v)) } false
-      else .fault fIndex
-  | "store", [.use _, .entry _ _] => .fault fUndef
+      match pyIdx i arr.length with
+      | some k => .ok none { m with arrays := setArr m.arrays a (arr.set k (some v)) } false
+      | none => .fault fIndex
   | "load", [.dst, .entry a (some i)] =>
     match getArr m.arrays a with
     | none => .fault fNoArray
     | some arr =>
-      if 0 ≤ i ∧ i.toNat < arr.length then
-        match arr[i.toNat]? with
+      match pyIdx i arr.length with
+      | some k =>
+        match arr[k]? with
         | some (some v) => .ok (some v) m false
         | _ => .fault fUndef
-      else .fault fIndex
-  | "load", [.dst, .entry _ none] => .fault fUndef
+      | none => .fault fIndex
   | "undef", [.entry a (some i)] =>
     match getArr m.arrays a with
     | none => .fault fNoArray
     | some arr =>
-      if 0 ≤ i ∧ i.toNat < arr.length then .ok none { m with arrays := setArr m.arrays a (arr.set i.toNat none) } false
-      else .fault fIndex
-  | "undef", [.entry _ none] => .fault fUndef
+      match pyIdx i arr.length with
+      | some k => .ok none { m with arrays := setArr m.arrays a (arr.set k none) } false
+      | none => .fault fIndex
   | "jmp", [.tgt] => .ok none m true
-  | "bez", [.use (some a), .tgt] => .ok none m (a == 0)
-  | "bnz", [.use (some a), .tgt] => .ok none m (a != 0)
-  | "beq", [.use (some a), .use (some b), .tgt] => .ok none m (a == b)
-  | "bne", [.use (some a), .use (some b), .tgt] => .ok none m (a != b)
+  | "bez", [.use a, .tgt] => .ok none m (a == some 0)
+  | "bnz", [.use a, .tgt] => .ok none m (a != some 0)
+  | "beq", [.use a, .use b, .tgt] => .ok none m (a == b)
+  | "bne", [.use a, .use b, .tgt] => .ok none m (a != b)
   | "blt", [.use (some a), .use (some b), .tgt] => .ok none m (decide (a < b))
   | "bge", [.use (some a), .use (some b), .tgt] => .ok none m (decide (a ≥ b))
   | "add", [.dst, .use (some a), .use (some b)] => .ok (some (a + b)) m false
@@ -544,13 +548,14 @@ def stdExec (mn : String) (vals : List Val) (m : StdMem) : Res StdMem :=
   | "subm", [.dst, .use (some a), .use (some b), .use (some c)] =>
     if c < 1 then .fault fModulus else .ok (some ((a - b) % c)) m false
   | "qalloc", [.use (some q)] =>
-    if 0 ≤ q ∧ q.toNat < m.unit.length then
-      (if m.unit.getD q.toNat false then .fault fAlloc else .ok none { m with unit := m.unit.set q.toNat true } false)
-    else .fault fIndex
+    if q ≥ (m.unit.length : Int) then .fault fIndex
+    else match pyIdx q m.unit.length with
+      | some k => if m.unit.getD k false then .fault fAlloc else .ok none { m with unit := m.unit.set k true } false
+      | none => .fault fIndex
   | "qfree", [.use (some q)] =>
-    if 0 ≤ q ∧ q.toNat < m.unit.length then
-      (if m.unit.getD q.toNat false then .ok none { m with unit := m.unit.set q.toNat false } false else .fault fAlloc)
-    else .fault fIndex
+    match pyIdx q m.unit.length with
+    | some k => if m.unit.getD k false then .ok none { m with unit := m.unit.set k false } false else .fault fAlloc
+    | none => .fault fIndex
   | "ret_reg", [.named r (some v)] => .ok none { m with shmRegs := (r, v) :: m.shmRegs.filter (fun kv => kv.1 != r) } false
   | "ret_arr", [.addr a] =>
     match getArr m.arrays a with
